@@ -236,6 +236,9 @@ def run(ctx, build):
 def model_correspondence(ctx):
     """differential runs of the extracted Coq models of this property's cores against the real classes"""
     lib.corr_modules(ctx, SPEC, ['fat_alloc_corr', 'fat_data_corr', 'fat_dir_corr', 'fat_vol_corr'])
+    # the numeric tails of 8.3 aliases: five-digit tails, ENOSPC when all are taken (never a name already in use)
+    import fat_names_corr
+    fat_names_corr.many_tails(ctx)
 
 
 def replay(ctx, obj):
